@@ -208,7 +208,14 @@ def compare_case(case, eng, mod):
             if a != b:
                 div.append({"field": "state." + nm, "node": k, "engine": a, "model": b})
         if est[1] != mst[1]:
-            div.append({"field": "state.history", "node": k, "engine": est[1][-2:], "model": mst[1][-2:]})
+            # what the rules fix in the undo stack is its top: the current castling rights and half-move clock (the en-passant file is a
+            # field of its own); the rest of a record (what was captured, flags ...) is how THIS implementation undoes a move
+            top_e = est[1][-1][6:8] if est[1] else None
+            top_m = mst[1][-1][6:8] if mst[1] else None
+            if top_e != top_m or len(est[1]) != len(mst[1]):
+                div.append({"field": "state.rights_clock", "node": k, "engine": est[1][-2:], "model": mst[1][-2:]})
+            else:
+                div.append({"field": "state.history", "node": k, "engine": est[1][-2:], "model": mst[1][-2:]})
         if sorted(est[2]) != sorted(mst[2]):
             div.append({"field": "state.position_history", "node": k, "engine": sorted(est[2]),
                         "model": sorted(mst[2])})
